@@ -51,15 +51,25 @@ def run(rep, tier, seed):
     rep.extra["known_finding_D14_witness_reproduces"] = bool(wbad)
     if wbad and wbad.get("quantified") and not wbad.get("contradictory_data"):
         rep.enable_known("D14")
+    # corpus: minimised past failures (everything in corpus/C16 that is not a known-finding witness) run first
+    cprogs = []
+    for fn in sorted(os.listdir(os.path.join(VERIF, "corpus/C16"))):
+        if fn.endswith(".json") and not fn.startswith("known_"):
+            cp = streams.fix_prog(json.load(open(os.path.join(VERIF, "corpus/C16", fn)))["program"])
+            cp["facts"] = [tuple(f) for f in cp["facts"]]
+            cprogs.append(cp)
     n = size(tier, 80, 1500)
     for name, quant in (("fol-qf", False), ("quant", True)):
-        progs = [streams.gen_fol_program(seed + 41, k, quant=quant, n_ops=(0, 6)) for k in range(n)]
+        # half of the quantifier-free programs are the plain infer / reset_bounds / infer sequence on small closed/axiom-world KBs
+        progs = [streams.gen_fol_program(seed + 41, k, quant=quant, n_ops=(0, 6) if (quant or k % 2) else (0, 0)) for k in range(n if quant else 2 * n)]
         for k, p in enumerate(progs):
             rng = random.Random(sub_seed(seed, "c16f", k))
             mid = list(p["ops"])
             if rng.random() < 0.5:
                 mid.insert(rng.randint(0, len(mid)), ("print",))
             p["ops"] = [("infer", 60)] + mid + [("resetb",), ("infer", 60)]
+        if not quant:
+            progs = cprogs + progs
         recs, first = streams.run_fol_stream(rep, name, progs, {"tables", "reported"})
         for r in recs:
             if "crash" in r:
